@@ -185,6 +185,8 @@ def a_transport(draw, cx, name, ext=None):
     if ext:
         # takes refer to the quantity taken FROM node 1 (= flow), same sign as the flow
         a["min_take"], a["max_take"] = takes(draw, cx, a["min_cap"], a["max_cap"], n_max=1)
+        if a["min_take"] or a["max_take"]:
+            a["take_form"] = draw(st.sampled_from(["list", "list", "array", "dtindex"]))
     return a
 
 
